@@ -4,6 +4,7 @@ A data race needs a memory location reachable from two threads.  The rules show 
 creates none: no mutable static storage, no use of foreign mutable statics or non-reentrant libc
 functions, all working state of c3d is per object, and objects cannot share
 section handles."""
+import re
 import json
 import os
 from facts import AnalysisBroken, VERIF
@@ -249,6 +250,9 @@ def as_new(f, i, depth=0):
         if n['callee']['qname'] != 'std::move':
             return {'array': False, 'size': None, 'where': f.loc(i)}
         return as_new(f, n['args'][0], depth + 1)
+    if n['k'] == 'CXXMemberCallExpr' and n['callee']['name'] == 'get' and n['callee'].get('classq', '') in ('std::unique_ptr', 'std::shared_ptr', 'std::__uniq_ptr_impl') \
+            and n.get('obj') is not None:
+        return as_new(f, n['obj'], depth + 1)
     if n['k'] in ('CallExpr', 'CXXMemberCallExpr') and 'callee' in n:
         w = alloc_wrapper(f.prog, n['callee']['usr'])
         if w:
@@ -300,3 +304,41 @@ def contains_new(f, i):
         if n['k'] in ('CallExpr', 'CXXMemberCallExpr') and 'callee' in n and alloc_wrapper(f.prog, n['callee']['usr']):
             return True
     return False
+
+
+def constant_member(prog, cls, field):
+    """integer constant K such that every user constructor of cls initialises `field` to K and nothing
+    else writes it; else None"""
+    vals = set()
+    ctors = [f for f in prog.repo_funcs() if f.cls == cls and f.kind == 'ctor' and not f.implicit and not f.rec.get('copy') and not f.rec.get('move')]
+    if not ctors:
+        return None
+    for g, nid, rhs in field_writes(prog, cls, field):
+        if g.implicit:
+            continue
+        if g.kind != 'ctor' or rhs is None:
+            return None
+        n = g.nodes[g.strip(rhs, 'all')]
+        if 'cv' not in n:
+            return None
+        vals.add(int(n['cv']))
+    written_in = {g.usr for g, _, _ in field_writes(prog, cls, field)}
+    if len(vals) != 1 or any(c.usr not in written_in for c in ctors):
+        return None
+    return vals.pop()
+
+
+def const_subst(prog, cls, poly):
+    """replace atoms this.X by K where X is a constant member of cls (see constant_member)"""
+    import poly as P
+    if not cls or poly is None:
+        return poly
+    out = {}
+    for mono, c in poly.items():
+        term = P.const(c)
+        for a in mono:
+            mm = re.match(r'^this\.(\w+)$', a)
+            kc = constant_member(prog, cls, mm.group(1)) if mm else None
+            term = P.mul(term, P.const(kc) if kc is not None else {(a,): 1})
+        out = P.add(out, term)
+    return out
